@@ -128,7 +128,7 @@ const (
 	fSPKI
 )
 
-func (p parts) field(i int) []byte     { return p.pre[p.verOff()+i] }
+func (p parts) field(i int) []byte        { return p.pre[p.verOff()+i] }
 func (p *parts) setField(i int, b []byte) { p.pre[p.verOff()+i] = b }
 
 func splitTBS(tbs []byte) (p parts, ok bool) {
@@ -546,11 +546,12 @@ func mkAuthority(t *testing.T, r *verifkit.Rand, name string, sgn signer, parent
 // ----------------------------------------------------------------------------- the run
 
 type runner struct {
-	t   *testing.T
-	out *verifkit.Out
-	r   *verifkit.Rand
-	k   *keyring
-	n   int
+	akiCache map[string]*authority
+	t        *testing.T
+	out      *verifkit.Out
+	r        *verifkit.Rand
+	k        *keyring
+	n        int
 }
 
 func h(b []byte) string { return verifkit.Hex(b) }
@@ -605,51 +606,70 @@ func (x *runner) opRemove(which string, tbs []byte, canon bool) ([]byte, error) 
 		x.out.Fail("rm "+which+" "+h(tbs), "panic: "+p)
 		err = fmt.Errorf("panic")
 	}
-	a := res(b, err, p)
-	if !canon {
-		a = "noncanon"
-	}
-	x.out.T("rm "+which+" "+h(tbs), a)
+	_ = canon // the answer is the real one for every input; the model covers everything the fork accepts
+	x.out.T("rm "+which+" "+h(tbs), res(b, err, p))
 	return b, err
 }
 
-type preDesc struct {
-	cert *x509.Certificate
-}
+var oidEKU = []byte{0x55, 0x1d, 0x25}
 
-func preTokens(pi *x509.Certificate) string {
-	if pi == nil {
+// chain1Tokens describes chain[1] for the model, read with the splicer from the certificate's own bytes (not from the repository's
+// parse): `c1 <RawIssuer> <none | v:first AKI extension value> <n> <KeyPurposeId contents>…`. Whether that makes it a pre-issuer
+// is for the model to decide.
+func chain1Tokens(c *x509.Certificate) string {
+	if c == nil {
+		return "nil"
+	}
+	p, ok := splitTBS(c.RawTBSCertificate)
+	if !ok {
 		return "nil"
 	}
 	aki := "none"
-	for _, e := range pi.Extensions {
-		if e.Id.Equal(x509.OIDExtensionAuthorityKeyId) {
-			aki = "v:" + h(e.Value)
-			break
+	if k := findExt(p.exts, oidAKI); k >= 0 {
+		aki = "v:" + h(extValue(p.exts[k]))
+	}
+	var ekus [][]byte
+	if k := findExt(p.exts, oidEKU); k >= 0 {
+		_, seq, _, _, _ := readTLV(extValue(p.exts[k]))
+		ids, _ := splitAll(seq)
+		for _, id := range ids {
+			_, o, _, _, _ := readTLV(id)
+			ekus = append(ekus, o)
 		}
 	}
-	return fmt.Sprintf("pre %s %s %s", h(pi.RawIssuer), aki, verifkit.B(ct.IsPreIssuer(pi)))
+	s := fmt.Sprintf("c1 %s %s %d", h(p.field(fIssuer)), aki, len(ekus))
+	for _, e := range ekus {
+		s += " " + h(e)
+	}
+	return s
+}
+
+func spkiTokens(chain []*x509.Certificate) string {
+	s := ""
+	for i, c := range chain {
+		if i > 0 {
+			s += " " + h(c.RawSubjectPublicKeyInfo)
+		}
+	}
+	return s
 }
 
 func (x *runner) opBuild(tbs []byte, pi *x509.Certificate, canon bool) ([]byte, error) {
 	var b []byte
 	var err error
 	p := verifkit.Guard(func() { b, err = x509.BuildPrecertTBS(tbs, pi) })
-	op := "build " + h(tbs) + " " + preTokens(pi)
+	op := "build " + h(tbs) + " " + chain1Tokens(pi)
 	if p != "" {
 		x.out.Fail(op, "panic: "+p)
 		err = fmt.Errorf("panic")
 	}
-	a := res(b, err, p)
-	if !canon {
-		a = "noncanon"
-	}
-	x.out.T(op, a)
+	_ = canon
+	x.out.T(op, res(b, err, p))
 	return b, err
 }
 
-// leafAnswer renders a MerkleTreeLeaf as "ok <tbs> <index of the chain certificate whose key was hashed>".
-func leafAnswer(leaf *ct.MerkleTreeLeaf, err error, p string, chain []*x509.Certificate) string {
+// leafAnswer renders a MerkleTreeLeaf as "ok <tbs> <issuer_key_hash>".
+func leafAnswer(leaf *ct.MerkleTreeLeaf, err error, p string) string {
 	if p != "" {
 		return "panic"
 	}
@@ -657,14 +677,7 @@ func leafAnswer(leaf *ct.MerkleTreeLeaf, err error, p string, chain []*x509.Cert
 		return "err"
 	}
 	pe := leaf.TimestampedEntry.PrecertEntry
-	idx := -1
-	for i, c := range chain {
-		if i > 0 && sha256.Sum256(c.RawSubjectPublicKeyInfo) == pe.IssuerKeyHash {
-			idx = i
-			break
-		}
-	}
-	return fmt.Sprintf("ok %s %d", h(pe.TBSCertificate), idx)
+	return fmt.Sprintf("ok %s %s", h(pe.TBSCertificate), h(pe.IssuerKeyHash[:]))
 }
 
 func (x *runner) chainOf(tbs []byte, key crypto.Signer, rest ...*x509.Certificate) []*x509.Certificate {
@@ -684,19 +697,16 @@ func (x *runner) opLeafPre(tbs []byte, chain []*x509.Certificate, canon bool) *c
 	var leaf *ct.MerkleTreeLeaf
 	var err error
 	p := verifkit.Guard(func() { leaf, err = ct.MerkleTreeLeafFromChain(chain, ct.PrecertLogEntryType, 1234) })
-	var pi *x509.Certificate
-	if len(chain) > 1 && ct.IsPreIssuer(chain[1]) {
-		pi = chain[1]
+	var c1 *x509.Certificate
+	if len(chain) > 1 {
+		c1 = chain[1]
 	}
-	op := fmt.Sprintf("leafpre %s %d %s", h(tbs), len(chain), preTokens(pi))
+	op := fmt.Sprintf("leafpre %s %d%s %s", h(tbs), len(chain), spkiTokens(chain), chain1Tokens(c1))
 	if p != "" {
 		x.out.Fail(op, "panic: "+p)
 	}
-	a := leafAnswer(leaf, err, p, chain)
-	if !canon {
-		a = "noncanon"
-	}
-	x.out.T(op, a)
+	_ = canon
+	x.out.T(op, leafAnswer(leaf, err, p))
 	if err != nil {
 		return nil
 	}
@@ -707,15 +717,12 @@ func (x *runner) opLeafEmb(tbs []byte, chain []*x509.Certificate, canon bool) *c
 	var leaf *ct.MerkleTreeLeaf
 	var err error
 	p := verifkit.Guard(func() { leaf, err = ct.MerkleTreeLeafForEmbeddedSCT(chain, 1234) })
-	op := fmt.Sprintf("leafemb %s %d", h(tbs), len(chain))
+	op := fmt.Sprintf("leafemb %s %d%s", h(tbs), len(chain), spkiTokens(chain))
 	if p != "" {
 		x.out.Fail(op, "panic: "+p)
 	}
-	a := leafAnswer(leaf, err, p, chain)
-	if !canon {
-		a = "noncanon"
-	}
-	x.out.T(op, a)
+	_ = canon
+	x.out.T(op, leafAnswer(leaf, err, p))
 	if err != nil {
 		return nil
 	}
@@ -965,6 +972,27 @@ func (x *runner) preIssuerCase(root, pi *authority, rootSKI, piSKI bool) {
 		// different signature algorithms: the final certificate's signature field must be the precertificate's (RFC 6962 3.1)
 		bf.setField(fSigAlg, bp.field(fSigAlg))
 	}
+	if r.Intn(4) == 0 {
+		// nothing but the poison / the SCT list (and, where the pre-issuer has one, the authority key id the final issuer writes):
+		// after the transformation the extension list is empty or holds the key id alone
+		var keep [][]byte
+		if k := findExt(bf.exts, oidAKI); k >= 0 && rootSKI {
+			keep = [][]byte{bf.exts[k]}
+		}
+		bp, bf = bp.withExts(nil), bf.withExts(keep)
+		piSKI = false
+		x.out.Count("class:preissuer-no-other-extension")
+	}
+	if r.Intn(3) == 0 {
+		// unique identifiers (never written by the library) on both sides: the pre-issuer edit must leave them alone
+		u := [][]byte{mk(0x81, []byte{byte(r.Intn(8))}, append(r.Bytes(1+r.Intn(3)), 0))}
+		if r.Bool() {
+			u = append(u, mk(0x82, []byte{0}, r.Bytes(r.Intn(5))))
+		}
+		bp.pre = append(bp.pre, u...)
+		bf.pre = append(bf.pre, u...)
+		x.out.Count("class:preissuer-unique-ids")
+	}
 	if piSKI && rootSKI && r.Intn(2) == 0 {
 		// a critical authority key id on both sides (the library never writes one): the replace case must keep the flag
 		crit := func(p *parts) {
@@ -977,6 +1005,25 @@ func (x *runner) preIssuerCase(root, pi *authority, rootSKI, piSKI bool) {
 		x.out.Count("class:preissuer-aki-critical")
 	}
 	cls := fmt.Sprintf("class:preissuer-aki-pre%v-final%v", piSKI, rootSKI)
+	if rootSKI {
+		// the pre-issuer's own authority key id in each RFC 5280 4.2.1.1 form; the real CA writes that same value into the final certificate
+		form := []string{"keyid", "full", "issuer-serial"}[r.Intn(3)]
+		pi = x.akiForm(pi, root, form)
+		k := findExt(bf.exts, oidAKI)
+		if pi == nil || k < 0 {
+			x.out.Fail("gen", "cannot rewrite the authority key id ("+form+")")
+			return
+		}
+		var v []byte
+		for _, e := range pi.parsed.Extensions {
+			if e.Id.Equal(x509.OIDExtensionAuthorityKeyId) {
+				v = e.Value
+			}
+		}
+		_, crit := readCrit(bf.exts[k])
+		bf.exts[k] = mkExt(oidAKI, crit, v)
+		cls += "-" + form
+	}
 	x.out.Count(cls)
 	atEnd := false
 	if !piSKI && rootSKI {
@@ -996,6 +1043,7 @@ func (x *runner) preIssuerCase(root, pi *authority, rootSKI, piSKI bool) {
 	}
 	_ = atEnd
 	x.preRoutes(bp, bf, root, pi, cls, true)
+	x.preVerify(bp, bf, root, pi, cls)
 	if k := findExt(bp.exts, oidAKI); k >= 0 {
 		// a precertificate with two authority key ids: only the first one is replaced / deleted
 		dup := bp.insertExt(r.Intn(len(bp.exts)+1), mkExt(oidAKI, r.Bool(), r.Bytes(1+r.Intn(8))))
@@ -1003,6 +1051,209 @@ func (x *runner) preIssuerCase(root, pi *authority, rootSKI, piSKI bool) {
 		x.opBuild(pre, pi.parsed, x.opCanon(pre))
 		x.out.Count("class:preissuer-two-akis")
 	}
+}
+
+// ekuCases: who counts as a pre-issuer is decided from the KeyPurposeIds of chain[1] — by the model on the trace lines, and here by
+// looking for the CT key purpose in the raw extension. The pre-issuer's extKeyUsage is rewritten with the splicer and re-signed.
+func (x *runner) ekuCases(root, pi *authority) {
+	r := x.r
+	ctOID := []byte{0x2b, 0x06, 0x01, 0x04, 0x01, 0xd6, 0x79, 0x02, 0x04, 0x04}
+	near := []byte{0x2b, 0x06, 0x01, 0x04, 0x01, 0xd6, 0x79, 0x02, 0x04, 0x05}
+	prefix := []byte{0x2b, 0x06, 0x01, 0x04, 0x01, 0xd6, 0x79, 0x02, 0x04}
+	server := []byte{0x2b, 0x06, 0x01, 0x05, 0x05, 0x07, 0x03, 0x01}
+	anyEKU := []byte{0x55, 0x1d, 0x25, 0x00}
+	forms := []struct {
+		name string
+		ids  [][]byte
+	}{{"ct", [][]byte{ctOID}}, {"server+ct", [][]byte{server, ctOID}}, {"ct+server", [][]byte{ctOID, server}}, {"any+ct", [][]byte{anyEKU, ctOID}},
+		{"near-miss", [][]byte{near}}, {"prefix", [][]byte{prefix}}, {"server", [][]byte{server}}, {"any", [][]byte{anyEKU}}, {"absent", nil},
+		{"unknown+ct+unknown", [][]byte{{0x2a, 0x03}, ctOID, {0x2a, 0x04}}}}
+	c, err := stdx509.ParseCertificate(pi.der)
+	if err != nil {
+		return
+	}
+	pp, ok := splitTBS(c.RawTBSCertificate)
+	k := findExt(pp.exts, oidEKU)
+	if !ok || k < 0 {
+		x.out.Fail("gen", "pre-issuer without extKeyUsage")
+		return
+	}
+	leafKey := x.k.leafs[r.Intn(len(x.k.leafs))]
+	tm := rndTemplate(r, rndSerial(r))
+	derP, err := stdx509.CreateCertificate(rand.Reader, tm, pi.tmpl, leafKey.Public(), pi.sgn.key)
+	if err != nil {
+		return
+	}
+	cP, _ := stdx509.ParseCertificate(derP)
+	bp, ok := splitTBS(cP.RawTBSCertificate)
+	if !ok {
+		return
+	}
+	pre := bp.insertExt(r.Intn(len(bp.exts)+1), mkExt(oidPoison, true, []byte{5, 0})).assemble()
+	for _, f := range forms {
+		q := pp.clone()
+		if f.ids == nil {
+			q.exts = append(append([][]byte{}, pp.exts[:k]...), pp.exts[k+1:]...)
+		} else {
+			var ids [][]byte
+			for _, id := range f.ids {
+				ids = append(ids, mk(0x06, id))
+			}
+			q.exts[k] = mkExt(oidEKU, false, mk(0x30, ids...))
+		}
+		der, err := signTBS(q.assemble(), root.sgn.key)
+		if err != nil {
+			continue
+		}
+		var pc *x509.Certificate
+		verifkit.Guard(func() { pc, err = x509.ParseCertificate(der) })
+		if pc == nil || x509.IsFatal(err) {
+			x.out.Count("class:eku-" + f.name + "-unparsable")
+			continue
+		}
+		isPre := false
+		for _, id := range f.ids {
+			isPre = isPre || bytes.Equal(id, ctOID)
+		}
+		x.out.Count(fmt.Sprintf("class:eku-%s-preissuer=%v", f.name, isPre))
+		key := "eku " + f.name + " pre=" + h(pre) + " chain1=" + h(der)
+		cp := x.opCanon(pre)
+		o, errB := x.opBuild(pre, pc, cp)
+		if isPre != (errB == nil) {
+			x.out.Fail(key, fmt.Sprintf("BuildPrecertTBS with this certificate as pre-issuer: error %v, CT key purpose present %v", errB, isPre))
+		}
+		ch := x.chainOf(pre, pi.sgn.key, pc, root.parsed)
+		if ch == nil {
+			continue
+		}
+		leaf := x.opLeafPre(pre, ch, cp)
+		if leaf == nil {
+			x.out.Fail(key, "no leaf")
+			continue
+		}
+		pe := leaf.TimestampedEntry.PrecertEntry
+		wantKey, wantIssuer := sha256.Sum256(pc.RawSubjectPublicKeyInfo), bp.field(fIssuer)
+		if isPre {
+			wantKey, wantIssuer = sha256.Sum256(root.parsed.RawSubjectPublicKeyInfo), pc.RawIssuer
+			if errB == nil && !bytes.Equal(o, pe.TBSCertificate) {
+				x.out.Fail(key, "leaf TBS differs from BuildPrecertTBS with the pre-issuer")
+			}
+		}
+		po, ok := splitTBS(pe.TBSCertificate)
+		if !ok || pe.IssuerKeyHash != wantKey || !bytes.Equal(po.field(fIssuer), wantIssuer) {
+			x.out.Fail(key, fmt.Sprintf("pre-issuer detection: CT key purpose present %v, but issuer / issuer key hash of the entry say otherwise", isPre))
+		}
+	}
+}
+
+// preVerify: pre-issuer layout of "an embedded SCT verifies exactly when the log signed that precertificate" — the log signs the entry built from
+// [precert, preIssuer, issuer]; that SCT, embedded in the final certificate issued by the issuer, must verify through ctutil.VerifySCT(embedded).
+func (x *runner) preVerify(bp, bf parts, root, pi *authority, cls string) {
+	r := x.r
+	pre := bp.insertExt(r.Intn(len(bp.exts)+1), mkExt(oidPoison, true, []byte{5, 0})).assemble()
+	chP := x.chainOf(pre, pi.sgn.key, pi.parsed, root.parsed)
+	if chP == nil {
+		x.out.Fail("pre-verify "+h(pre), "precertificate does not parse")
+		return
+	}
+	leaf, err := ct.MerkleTreeLeafFromChain(chP, ct.PrecertLogEntryType, 4242)
+	if err != nil {
+		x.out.Fail("pre-verify "+h(pre), "no leaf: "+err.Error())
+		return
+	}
+	pub, _ := stdx509.MarshalPKIXPublicKey(x.k.log.Public())
+	sct := ct.SignedCertificateTimestamp{SCTVersion: ct.V1, LogID: ct.LogID{KeyID: sha256.Sum256(pub)}, Timestamp: 4242}
+	in, err := ct.SerializeSCTSignatureInput(sct, ct.LogEntry{Leaf: *leaf})
+	if err != nil {
+		x.out.Fail("pre-verify "+h(pre), "no signature input: "+err.Error())
+		return
+	}
+	ds, err := tls.CreateSignature(*x.k.log, tls.SHA256, in)
+	if err != nil {
+		return
+	}
+	sct.Signature = ct.DigitallySigned(ds)
+	sctBytes, _ := tls.Marshal(sct)
+	val, err := sctListValue([][]byte{sctBytes})
+	if err != nil {
+		return
+	}
+	fin := bf.insertExt(r.Intn(len(bf.exts)+1), mkExt(oidSCT, false, val)).assemble()
+	chF := x.chainOf(fin, root.sgn.key, root.parsed)
+	if chF == nil {
+		x.out.Fail("pre-verify "+h(fin), "final certificate does not parse")
+		return
+	}
+	key := strings.TrimPrefix(cls, "class:") + " verify pre=" + h(pre) + " fin=" + h(fin) + " preissuer=" + h(pi.der)
+	if err := ctutil.VerifySCT(x.k.log.Public(), chF, &sct, true); err != nil {
+		x.out.Fail(key, "the SCT the log signed over the pre-issuer precertificate entry does not verify on the final certificate: "+err.Error())
+	}
+	h1, e1 := ctutil.LeafHash(chP, &sct, false)
+	h2, e2 := ctutil.LeafHash(chF, &sct, true)
+	if e1 != nil || e2 != nil || h1 != h2 {
+		x.out.Fail(key, "LeafHash differs between the pre-issuer precertificate chain and the embedded route")
+	}
+	x.out.Count("class:preissuer-verify-embedded")
+}
+
+// readCrit reports whether a raw Extension carries critical TRUE.
+func readCrit(raw []byte) ([]byte, bool) {
+	_, v, _, _, _ := readTLV(raw)
+	fs, _ := splitAll(v)
+	return raw, len(fs) == 3 && bytes.Equal(fs[1], []byte{1, 1, 0xff})
+}
+
+// akiForm returns the pre-issuer with its authorityKeyIdentifier extension rewritten into the given form and re-signed by the root:
+// "keyid" (as issued), "full" = keyIdentifier + authorityCertIssuer + authorityCertSerialNumber, "issuer-serial" = the latter two only.
+func (x *runner) akiForm(pi, root *authority, form string) *authority {
+	if form == "keyid" {
+		return pi
+	}
+	key := fmt.Sprintf("%p/%s", pi, form)
+	if x.akiCache == nil {
+		x.akiCache = map[string]*authority{}
+	}
+	if a, ok := x.akiCache[key]; ok {
+		return a
+	}
+	c, err := stdx509.ParseCertificate(pi.der)
+	if err != nil {
+		return nil
+	}
+	p, ok := splitTBS(c.RawTBSCertificate)
+	k := findExt(p.exts, oidAKI)
+	if !ok || k < 0 {
+		return nil
+	}
+	_, akiSeq, _, _, _ := readTLV(extValue(p.exts[k]))
+	kid, _ := splitAll(akiSeq) // [0] keyIdentifier as written by the library
+	rc, _ := stdx509.ParseCertificate(root.der)
+	issuer := mk(0xa1, mk(0xa4, rc.RawSubject))
+	sb := rc.SerialNumber.Bytes()
+	if len(sb) == 0 || sb[0]&0x80 != 0 {
+		sb = append([]byte{0}, sb...)
+	}
+	serial := mk(0x82, sb)
+	var val []byte
+	if form == "full" {
+		val = mk(0x30, kid[0], issuer, serial)
+	} else {
+		val = mk(0x30, issuer, serial)
+	}
+	q := p.clone()
+	q.exts[k] = mkExt(oidAKI, false, val)
+	der, err := signTBS(q.assemble(), root.sgn.key)
+	if err != nil {
+		return nil
+	}
+	a := *pi
+	a.der = der
+	a.parsed, err = x509.ParseCertificate(der)
+	if a.parsed == nil || x509.IsFatal(err) {
+		return nil
+	}
+	x.akiCache[key] = &a
+	return &a
 }
 
 func (x *runner) preRoutes(bp, bf parts, root, pi *authority, cls string, expectEqual bool) {
@@ -1035,10 +1286,24 @@ func (x *runner) preRoutes(bp, bf parts, root, pi *authority, cls string, expect
 			continue
 		}
 		if !expectEqual {
+			// precertificate without AKI, final certificate with the library's AKI placement: the code appends the key id at the end, so the
+			// routes differ (the property states this case under the hypothesis `AkiRel.append`). What must still hold: the ONLY difference is
+			// where the authority key id sits — same fields, same other extensions in the same order, same AKI extension bytes.
 			if bytes.Equal(a, b) {
 				x.out.Count("class:aki-midlist-yet-equal")
-			} else {
-				x.out.Count("class:aki-appended-vs-library-placement(not a finding)")
+				continue
+			}
+			x.out.Count("class:aki-appended-vs-library-placement(hypothesis of routes_commute_preissuer not met)")
+			pa, okA := splitTBS(a)
+			pb, okB := splitTBS(b)
+			ka, kb := -1, -1
+			if okA && okB {
+				ka, kb = findExt(pa.exts, oidAKI), findExt(pb.exts, oidAKI)
+			}
+			if !okA || !okB || ka != len(pa.exts)-1 || kb < 0 || !bytes.Equal(bytes.Join(pa.pre, nil), bytes.Join(pb.pre, nil)) ||
+				!bytes.Equal(pa.exts[ka], pb.exts[kb]) ||
+				!bytes.Equal(bytes.Join(pa.exts[:ka], nil), bytes.Join(append(append([][]byte{}, pb.exts[:kb]...), pb.exts[kb+1:]...), nil)) {
+				x.out.Fail(key, "routes differ in more than the position of the authority key id: "+h(a)+" vs "+h(b))
 			}
 			continue
 		}
@@ -1206,7 +1471,10 @@ func (x *runner) sctDec(ca *authority, base parts, val []byte, embedded [][]byte
 	}
 	var c *x509.Certificate
 	p := verifkit.Guard(func() { c, err = x509.ParseCertificate(der) })
-	a := "err"
+	a := "err-nonfatal" // an unreadable SCT list is recorded as a NonFatalError: the certificate is still returned
+	if err != nil && (c == nil || x509.IsFatal(err)) {
+		a = "err-fatal"
+	}
 	if p != "" {
 		a = "panic"
 		x.out.Fail("sctdec "+h(val), "panic: "+p)
@@ -1273,6 +1541,10 @@ func TestVerifC03(t *testing.T) {
 		rs, ps := i%2 == 0, (i/2)%2 == 0
 		x.preIssuerCase(f.root[b2i(rs)], f.pi[b2i(rs)][b2i(ps)], rs, ps)
 	}
+	for i, n := 0, verifkit.N(3, 30); i < n; i++ {
+		f := fams[i%len(fams)]
+		x.ekuCases(f.root[1], f.pi[1][i%2])
+	}
 	for i, n := 0, verifkit.N(6, 60); i < n; i++ {
 		x.verifyCase(fams[0].root[i%2])
 	}
@@ -1329,7 +1601,7 @@ func TestVerifC03(t *testing.T) {
 	}
 
 	// non-canonical and malformed TBSCertificates
-	for i, n := 0, verifkit.N(12, 120); i < n; i++ {
+	for i, n := 0, verifkit.N(8, 80); i < n; i++ {
 		x.variantCases(fams[i%3].root[i%2])
 	}
 	x.lengthBoundaries(fams[0].root[1])
@@ -1383,7 +1655,7 @@ func (x *runner) lengthBoundaries(ca *authority) {
 	for n := 0; n <= 300; n++ {
 		sizes = append(sizes, n)
 	}
-	for n := 65536 - 400; n <= 65536+40; n += 7 {
+	for n := 65536 - 400; n <= 65536+40; n += 17 {
 		sizes = append(sizes, n)
 	}
 	if verifkit.Thorough() {
